@@ -13,6 +13,7 @@ use serde_json::json;
 use servlin::internal::{HttpError, WriteState};
 use servlin::{HttpConn, Response};
 use sim_core::with;
+use std::io::ErrorKind;
 use std::net::{IpAddr, Ipv4Addr, SocketAddr};
 
 #[derive(Clone, Debug, PartialEq, Eq)]
@@ -119,7 +120,12 @@ fn writer_fault(cfg: &RunCfg) -> Outcome {
     let mut n = 0u64;
     for k in ks {
         let mut w = writer_sched();
-        w.fail_at = Some((k, gen::write_error_kind()));
+        // EINTR-like: reported once, then the sink goes on. Giving up (Err + prefix) and a
+        // correct retry (Ok + the full serialisation) are both right; resending is not.
+        let transient = gen::ratio(1, 8);
+        let kind = if transient { ErrorKind::Interrupted } else { gen::write_error_kind() };
+        w.fail_at = Some((k, kind));
+        w.transient = transient;
         with(|wd| {
             wd.fs.short_io = wd.tape.ratio(1, 2);
         });
@@ -128,6 +134,12 @@ fn writer_fault(cfg: &RunCfg) -> Outcome {
             Err(o) => return o,
         };
         n += 1;
+        if transient {
+            if !is_prefix(&w.out, &full) || (res.is_ok() && w.out != full) {
+                return Outcome::fail("C08.prefix", format!("a transient (Interrupted) sink error after {k} bytes: result {}, and the {} bytes accepted are not {} the correct serialisation", if res.is_ok() { "Ok" } else { "Err" }, w.out.len(), if res.is_ok() { "exactly" } else { "a prefix of" }));
+            }
+            continue;
+        }
         if k < full.len() && res.is_ok() {
             return Outcome::fail("C08.failure_reported", format!("sink failed after {k} of {} bytes but the serialiser returned Ok", full.len()));
         }
